@@ -12,8 +12,8 @@ PARALLEL = 8
 IMPORTS = "From Verif Require Import C17.Model C17.Spec C17.Tables C17.Corr."
 CASE_TYPE = "C17.Corr.case"
 RUNNER = "C17.Corr.run"
-# 1: open; 2: repaired by 16472e5d (still recognised by Corr.cls so that a regression is named: the finding being
-# closed, the driver reports it as VIOLATION); 3: open (what 16472e5d left of the eduPersonTargetedID special case)
+# 1: open; 2: repaired by 16472e5d, 3: repaired by 09ff19a1 (both still recognised by Corr.cls so that a regression is
+# named: the findings being closed, the driver reports it as VIOLATION with the failing input)
 FINDING_CLASSES = {1: "C17-F1", 2: "C17-F2", 3: "C17-F3"}
 RULE = ("EVERY (bundled map, local attribute) pair of the live tables: one send case, one send->receive case through "
         "the five bundled converters and one through that map alone; EVERY (bundled map, wire name) pair: receive with "
@@ -709,7 +709,8 @@ def generate_custom(ctx, cases):
     # a map dictionary with neither table
     cases.append(mk("load", "load", src={"identifier": NF_URI, "to": None, "fro": None}, shape="none", quirks=[]))
     # 4. eduPersonTargetedID through custom maps, complete over (map shape x value list x transport); no randomness.
-    # to-only / fro-only / other-case spellings are what 16472e5d repaired (class 2); 'eptid' is open class 3.
+    # to-only / fro-only / other-case spellings are what 16472e5d repaired (class 2), other local names ('eptid',
+    # 'targetedId') what 09ff19a1 repaired (class 3).
     eptid_maps = [
         ("to", {"identifier": NF_URI, "to": [["eduPersonTargetedID", EPTID_OID]], "fro": None}, "eduPersonTargetedID"),
         ("fro", {"identifier": NF_URI, "to": None, "fro": [[EPTID_OID, "eduPersonTargetedID"]]}, "eduPersonTargetedID"),
